@@ -1023,6 +1023,9 @@ impl SQLExpression for BinaryOperator {
         use BinaryOperator::*;
         match self {
             Minus | Divide | Modulo => Associativity::Left,
+            // `*` shares its precedence level with `%` and `/`, which do not associate
+            // with it: `a * (b % c)` must keep its parentheses
+            Multiply => Associativity::Left,
             // comparisons are not associative: `a = (b = c)` must keep its parentheses
             Gt | Lt | GtEq | LtEq | Eq | NotEq => Associativity::Left,
             _ => Associativity::Both,
